@@ -30,7 +30,14 @@ def dict_variants(rng, name, limit):
             out.append({k: x})
         out.append({"__drop__": k})
     rng.shuffle(out)
-    return out[:limit]
+    out = out[:limit]
+    # and, for every algorithm parameter, one validator-accepted moved value that is always run (HyperTuner re-configures exactly so)
+    seen = set()
+    for k, v in optimizers.param_variants(name):
+        if k not in seen:
+            seen.add(k)
+            out.append({k: v, "__run__": True})
+    return out
 
 
 def run(ctx):
@@ -47,12 +54,20 @@ def run(ctx):
             cfg = {"max_cycles": 2, "fitness_error": None}
             job = {"name": name, "kind": "cont", "specs": [{"k": "contMulti", "lbs": [-3.0, -3.0, 0.0], "ubs": [3.0, 3.0, 6.0]}], "objective": "sphere", "minmax": "min",
                    "seed": rng.randrange(1, 10 ** 6), "mode": "serial", "cfg": dict(cfg), "variant": var}
+            force_run = bool(var.pop("__run__", False)) if isinstance(var, dict) else False
             if "__drop__" in var:
                 job["drop"] = var["__drop__"]
             else:
                 job["cfg"].update(var)
             # the run equivalence is exercised on a third of the accepted dictionaries (the configuration equivalence on all)
             job["do_run"] = (not var) or rng.random() < 0.34
+            base = optimizers.CFGS[name][1]
+            for k, v in var.items():
+                # absurd magnitudes (10**9 countries, 1e300 rates) are still compared as configurations, but not run
+                if isinstance(v, (int, float)) and not isinstance(v, bool) and isinstance(base.get(k), (int, float)) and abs(v) > 10 * max(1.0, abs(base[k])):
+                    job["do_run"] = False
+            if force_run:
+                job["do_run"] = True
             js.append(job)
     res = pmap(run_one, js)
     for j, r in zip(js, res):
